@@ -90,6 +90,25 @@ inline std::string hex(const void* p, size_t n) { return hexbytes(p, n, 1u << 20
 template<typename V> std::string hexv(const V& v) { return hex(v.data(), v.size()); }
 inline std::string num(double d) { char b[40]; snprintf(b, sizeof b, "%.17g", d); return b; }
 
+// Heap-owning items.  Families with non-trivial items (std::string) must also be fed images whose items own heap memory
+// in EVERY region of the image (beyond the 15-char small-string buffer), otherwise an item that is constructed and then
+// forgotten when a later part of the image is rejected leaks nothing visible.  The framework switches the mode per image
+// (odd variants); the units' item generators append long_pad() to every string item they make.
+inline bool& long_items() { static bool b = false; return b; }
+inline uint64_t& long_items_made() { static uint64_t n = 0; return n; }
+inline std::string long_pad(Rng& r) {
+  if (!long_items()) return std::string();
+  ++long_items_made();
+  std::string s(static_cast<size_t>(r.range(20, 40)), 'x');
+  for (char& c : s) c = static_cast<char>('A' + r.below(26));
+  return s;
+}
+inline std::string long_pad(uint64_t i) {   // deterministic flavour for generators without an Rng
+  if (!long_items()) return std::string();
+  ++long_items_made();
+  return std::string(static_cast<size_t>(20 + i % 21), static_cast<char>('A' + i % 26));
+}
+
 // to be provided by the unit
 std::vector<Target> targets();
 unsigned variants(bool thorough);
@@ -504,7 +523,10 @@ inline void run_target_case(const Target& t, uint64_t variant, Rng& r) {
   for (char c : t.family + "/" + t.kind) h = mix64(h, static_cast<uint8_t>(c));
   Rng ir(h);
   datasketches::random_utils::rand.seed(h); datasketches::random_utils::random_bit.seed(static_cast<uint32_t>(h));
+  long_items() = (variant & 1) != 0;
+  long_items_made() = 0;
   const Bytes img = t.build(ir, T);
+  if (long_items_made() > 0) count("heap_owning_item_images_" + t.family);
   const std::string tk = t.family + "|" + t.kind + "|" + t.path;
   describe(tk + " variant=" + std::to_string(variant) + " size=" + std::to_string(img.size()) + " image=" + hexbytes(img.data(), img.size(), 96));
   count("images");
